@@ -48,3 +48,12 @@ Theorem C11_lost_value_is_a_read_error :
   RecordIO.Format.lenN (SST.TableReader.r_data r) <= off -> exists e, SST.TableReader.get_value_at r off crc skip = Err e.
 Proof. exact SST.DamageTableFacts.offset_behind_data_is_error. Qed.
 Print Assumptions C11_lost_value_is_a_read_error.
+
+(* a flush or compaction that fails on its background goroutine stops the process: in the source the failure ends in
+   log.Panicf, no deferred function of the goroutine sends on a channel (such a send runs before the panic leaves the
+   goroutine and parks it - until fix 49bf1c8 it did, witnesses corpus/C11_fixed_background_*.json), and the compactor
+   checks the error of a cycle before anything else; re-read from the source on every run *)
+Theorem C11_background_failure_stops_the_process :
+  bg_flush_panic_not_parked = true /\ bg_compaction_panic_not_parked = true /\ bg_compaction_error_checked_first = true.
+Proof. exact background_facts. Qed.
+Print Assumptions C11_background_failure_stops_the_process.
